@@ -277,6 +277,7 @@ Apply(f, vals, st) ==
          CASE f.s = "p"  -> IF Len(vals) # 1 THEN Thr(st, RtErrV("arity")) ELSE Norm(Log(st, vals[1]), vals[1])
            [] f.s = "pv" -> IF Len(vals) # 2 THEN Thr(st, RtErrV("arity")) ELSE Norm(Log(st, vals[1]), vals[2])
            [] f.s = "pn" -> Norm(Log(st, ListV(vals)), NilV)                \* variadic host probe
+           [] f.s = "pp" -> IF Len(vals) # 1 THEN Thr(st, RtErrV("arity")) ELSE Thr(Log(st, vals[1]), RtErrV("hostpanic"))   \* a Go function that panics: an ordinary error of the call
            [] f.s = "pa" -> IF Len(vals) # 1 THEN Thr(st, RtErrV("arity")) ELSE Norm(Log(st, IntV(77)), NilV)   \* takes a pointer (&x, &a[i], &m.k), touches nothing
            [] OTHER -> Norm(MarkOpen(st), OpenV)
     [] OTHER -> Thr(st, RtErrV("notfunc"))
@@ -475,7 +476,7 @@ Exec(n, s, st) ==
 ----------------------------------------------------------------------------
 (* a whole run: top-level scope with the host probes, top-level defer list *)
 InitState(fuel) ==
-  [sc |-> <<[par |-> 0, vars |-> [n \in {"p", "pv", "pn", "pa"} |-> HostV(n)]]>>,
+  [sc |-> <<[par |-> 0, vars |-> [n \in {"p", "pv", "pn", "pa", "pp"} |-> HostV(n)]]>>,
    log |-> <<>>, fuel |-> fuel, fns |-> <<>>, ds |-> <<<<>>>>, open |-> FALSE]
 
 \* result projection: class of the outcome, value, probe log, top-level bindings
@@ -491,7 +492,7 @@ Run(prog, fuel) ==
   ELSE LET dl == b.st.ds[1]
            d == RunDefers([b.st EXCEPT !.ds = <<>>], dl, Len(dl), b, NoneV) IN
        IF d.o = "fuel" THEN [cls |-> "fuel", v |-> NilV, log |-> <<>>, top |-> <<>>, open |-> TRUE]
-       ELSE LET names == DOMAIN d.st.sc[1].vars \ {"p", "pv", "pn", "pa"} IN
+       ELSE LET names == DOMAIN d.st.sc[1].vars \ {"p", "pv", "pn", "pa", "pp"} IN
             [cls |-> CASE d.o \in {"norm", "ret"} -> "ok" [] d.o = "thr" -> "err" [] OTHER -> "strayloopctl",
              v |-> IF d.o = "ret" THEN ProjV(d.v) ELSE IF d.o = "thr" THEN d.v ELSE OpenV,
              log |-> [j \in 1..Len(d.st.log) |-> ProjV(d.st.log[j])],
